@@ -370,10 +370,9 @@ static void flush_stats(C12Stats &st, const Args &a) {
     if (!a.fpfile.empty()) {
         FILE *f = fopen(a.fpfile.c_str(), "ab");
         if (f) {
-            for (uint64_t h : st.fingerprints) fwrite(&h, 8, 1, f);
-            uint64_t sep = 0;
-            fwrite(&sep, 8, 1, f);
-            for (uint64_t h : st.triples) fwrite(&h, 8, 1, f);
+            uint64_t tag1 = 1, tag2 = 2;
+            for (uint64_t h : st.fingerprints) { fwrite(&tag1, 8, 1, f); fwrite(&h, 8, 1, f); }
+            for (uint64_t h : st.triples) { fwrite(&tag2, 8, 1, f); fwrite(&h, 8, 1, f); }
             fclose(f);
         }
     }
@@ -570,6 +569,52 @@ int c12_batch(const Args &a) {
     return 0;
 }
 
+// ------------------------------------------------------------------ debugging aid: is a replay stable?
+static int c12_stress(const Plan &plan, const Schedule &sched) {
+    std::vector<std::vector<OpResult>> first;
+    std::vector<std::string> snap0;
+    uint64_t firsthash = 0;
+    for (int it = 0; it < 12; it++) {
+        Solo s;
+        run_solo(plan, s);
+        ReplayStrategy st(sched, (int)plan.tasks.size());
+        PassResult pr;
+        run_pass(plan, api_cfg(PASS_CONC, -1, false), st, pr);
+        if (it % 3 == 1) {
+            for (size_t v = 0; v < plan.tasks.size(); v++) {
+                PassResult pn;
+                ReplayStrategy st2(sched, (int)plan.tasks.size());
+                run_pass(plan, api_cfg(PASS_NULLOTHERS, (int)v, false), st2, pn);
+            }
+        }
+        if (it == 0) {
+            first = pr.res;
+            firsthash = pr.loghash;
+            for (Task *t : g_sim.tasks) snap0.push_back(std::string((const char *)t->arena.base, ARENA_SIZE));
+            continue;
+        }
+        for (size_t t = 0; t < g_sim.tasks.size(); t++) {
+            const uint8_t *b = g_sim.tasks[t]->arena.base;
+            for (size_t k = 0; k < ARENA_SIZE; k++)
+                if ((uint8_t)snap0[t][k] != b[k]) {
+                    printf("iteration %d: task %zu final arena differs first at offset %zu: was %s now %s\n", it, t, k,
+                           hexs(snap0[t].substr(k, 24)).c_str(), hexs(std::string((const char *)b + k, 24)).c_str());
+                    break;
+                }
+        }
+        if (pr.loghash != firsthash) printf("iteration %d: event log differs (%zu vs recorded switches)\n", it, pr.recorded.size());
+        for (size_t t = 0; t < pr.res.size(); t++)
+            for (size_t o = 0; o < pr.res[t].size(); o++) {
+                const OpResult &x = first[t][o], &y = pr.res[t][o];
+                if (x.digest == y.digest && x.nev == y.nev) continue;
+                printf("iteration %d: task %zu op %zu (%s): ret %lld/%lld err %d/%d nev %u/%u arena %s out %s hcalls %zu/%zu\n", it, t, o,
+                       g_fn[plan.tasks[t].ops[o].fn].name, (long long)x.ret, (long long)y.ret, x.err, y.err, x.nev, y.nev,
+                       x.arena_hash == y.arena_hash ? "same" : "DIFF", x.out == y.out ? "same" : "DIFF", x.hcalls.size(), y.hcalls.size());
+            }
+    }
+    return 0;
+}
+
 // ------------------------------------------------------------------ replay
 int c12_replay(const std::string &path) {
     FILE *f = fopen(path.c_str(), "r");
@@ -584,6 +629,7 @@ int c12_replay(const std::string &path) {
     Schedule sched;
     if (!parse_replay(txt, meta, plan, sched)) { fprintf(stderr, "cannot parse %s\n", path.c_str()); return 2; }
     std::string cls = meta["class"], key = meta["key"];
+    if (getenv("VERIF_STRESS")) return c12_stress(plan, sched);
     if (cls == "footprint") {
         Solo s;
         run_solo(plan, s);
@@ -612,6 +658,12 @@ int c12_replay(const std::string &path) {
             printf("REPRODUCED property=C12 class=interference key=%s victim=task%d/op%d loghash=%016llx\n", key.c_str(), mm.task, mm.op, (unsigned long long)h1);
             printf("  alone:       ret=%lld errno=%d digest=%016llx\n", (long long)s.res[mm.task][mm.op].ret, s.res[mm.task][mm.op].err, (unsigned long long)s.res[mm.task][mm.op].digest);
             printf("  interleaved: ret=%lld errno=%d digest=%016llx\n", (long long)pr.res[mm.task][mm.op].ret, pr.res[mm.task][mm.op].err, (unsigned long long)pr.res[mm.task][mm.op].digest);
+            {
+                const OpResult &x = s.res[mm.task][mm.op], &y = pr.res[mm.task][mm.op];
+                if (x.out != y.out) printf("  stream output alone:       %s\n  stream output interleaved: %s\n", jstr(x.out).c_str(), jstr(y.out).c_str());
+                if (x.arena_hash != y.arena_hash) printf("  caller memory differs after the call\n");
+                if (x.hcalls.size() != y.hcalls.size()) printf("  handler invocations: alone %zu, interleaved %zu\n", x.hcalls.size(), y.hcalls.size());
+            }
             return 1;
         }
         printf("NOT-REPRODUCED property=C12 key=%s (a1=%d a2=%d)\n", key.c_str(), a1, a2);
